@@ -114,12 +114,28 @@ def add_prefix_decl(g):
     g.add((d, SH.namespace, Literal("http://ex.org/", datatype=XSD.anyURI)))
 
 
+PFX_ALT = "PREFIX ex: <http://ex.org/alt#>\n"
+
+
+def prefixes_node(g, c):
+    """the owl:Ontology whose sh:declare entries the query of c uses: usually ex:prefixes; with c["alt_ns"] a second ontology
+    that binds the same prefix to another namespace (declarations of one ontology must not reach queries pointing to the other)"""
+    if not c.get("alt_ns"):
+        return EX.prefixes
+    g.add((EX.prefixes2, RDF.type, OWL.Ontology))
+    d = BNode("decl2")
+    g.add((EX.prefixes2, SH.declare, d))
+    g.add((d, SH.prefix, Literal("ex")))
+    g.add((d, SH.namespace, Literal("http://ex.org/alt#", datatype=XSD.anyURI)))
+    return EX.prefixes2
+
+
 def sparql_to_rdf(g, n, c):
     add_prefix_decl(g)
     for sc in c[1]:
         g.add((n, SH.sparql, sc["node"]))
         g.add((sc["node"], SH.select, Literal(sc["select"])))
-        g.add((sc["node"], SH.prefixes, EX.prefixes))
+        g.add((sc["node"], SH.prefixes, prefixes_node(g, sc)))
         for m in sc["msgs"]:
             g.add((sc["node"], SH.message, Literal(m)))
         if sc["deact"]:
@@ -166,7 +182,7 @@ def custom_to_rdf(g, n, c):
             g.add((cc["node"], SH.propertyValidator, v))
         g.add((v, RDF.type, SH.SPARQLSelectValidator))
         g.add((v, SH.select, Literal(cc["query"])))
-    g.add((v, SH.prefixes, EX.prefixes))
+    g.add((v, SH.prefixes, prefixes_node(g, cc)))
     for m in cc["msgs"]:
         g.add((v, SH.message, Literal(m)))
     g.add((n, cc["param"], cc["arg"]))
@@ -178,7 +194,7 @@ def path_text(path):
     return "<%s>" % path[1]
 
 
-def run_query(data, text, shape, this, value=None, extra=None):
+def run_query(data, text, shape, this, value=None, extra=None, alt_ns=False):
     q = text
     if shape["path"] is not None:
         q = re.sub(r"[\$\?]PATH\b", path_text(shape["path"]), q)
@@ -191,7 +207,7 @@ def run_query(data, text, shape, this, value=None, extra=None):
         binds["currentShape"] = shape["id"]
     for k, v in (extra or {}).items():
         binds[k] = v
-    return data.query(PFX + q, initBindings=binds)
+    return data.query((PFX_ALT if alt_ns else PFX) + q, initBindings=binds)
 
 
 def render_message(template, sigma):
@@ -207,7 +223,7 @@ def sols_for_sparql(data, shape, sc, focus):
     """rows of the sh:sparql query for one focus node, as the model's `sol` records (dicts)"""
     rows = []
     rest_ids = {}
-    for r in run_query(data, sc["select"], shape, focus):
+    for r in run_query(data, sc["select"], shape, focus, alt_ns=sc.get("alt_ns", False)):
         d = {str(k): v for k, v in r.asdict().items()}
         failure = d.pop("failure", None)
         p, v, t = d.pop("path", None), d.pop("value", None), d.pop("this", None)
@@ -229,7 +245,7 @@ def sols_for_sparql(data, shape, sc, focus):
 
 def custom_ask(data, shape, cc, focus, value):
     extra = {cc["var"]: cc["arg"]}
-    ans = run_query(data, cc["query"], shape, focus, value, extra).askAnswer
+    ans = run_query(data, cc["query"], shape, focus, value, extra, alt_ns=cc.get("alt_ns", False)).askAnswer
     sigma = {cc["var"]: cc["arg"], "this": focus, "value": value}
     if shape["path"] is not None:
         sigma["path"] = URIRef(shape["path"][1])
@@ -240,7 +256,7 @@ def custom_ask(data, shape, cc, focus, value):
 
 def custom_select(data, shape, cc, focus, value):
     rows = []
-    for r in run_query(data, cc["query"], shape, focus, value, {cc["var"]: cc["arg"]}):
+    for r in run_query(data, cc["query"], shape, focus, value, {cc["var"]: cc["arg"]}, alt_ns=cc.get("alt_ns", False)):
         d = {str(k): v for k, v in r.asdict().items()}
         failure = d.pop("failure", None)
         p, v, t = d.pop("path", None), d.pop("value", None), d.pop("this", None)
